@@ -21,6 +21,16 @@ Property theorems only, about the definitions of `Model/MaskBudget.lean` (the on
 * Equispaced: algebra of the adjusted acceleration, grid size, positions in range and strictly
   increasing, count decomposition, and **`equispaced_budget : |count − N/R| ≤ 2`** for every N, L,
   `R ≥ 2`, offset (full strength; the bound is attained).
+* Magic (offset) masks: `magic_count_formula` (exact count), `magic_budget_bounds` / `magic_budget_abs` (bracket),
+  `magic_deviates_by_design` (why they are not judged against `N / R`).
+
+Further property-level theorems (namespace `DirectVerif.C07`) live in their own modules, all obligations of the check:
+`Lemmas/C07Bisect.lean` (the slope interval of the VD-Poisson bisection: `bisection_iv_post`, `bisection_iv_eq_bisect`,
+`bisection_iv_slopes_inside`, `bisection_exact_halves`, `bisection_exact_never_raises`), `Lemmas/C07RandomProps.lean`
+(`random_count_decomp`, `random_frames_count`, `random_total_formula`, `random_expectation`, `random_expectation_exact`,
+`choose_pair_same_index`), `Lemmas/C07State.lean` (`history_budget`, `shared_array_violates`), `Lemmas/C07Ties.lean`
+(`equi_ties_irrelevant`, `equi_ties_half_even`), `Lemmas/C07Circus.lean` (`circus_count_le_picks`,
+`circus_even_square_budget`).
 -/
 namespace DirectVerif.C07
 open DirectVerif DirectVerif.MaskBudget
